@@ -14,9 +14,11 @@
      tree_equiv    = equality up to absent vs empty text
      key_norm      = keys compared as lxml serialises the element
    Fuel: undo_element recurses through the table, so the model carries fuel and answers Err EFuel when it runs
-   out.  C11_roundtrip holds for EVERY fuel above the size of the document (i.e. the unbounded recursion of the
-   Python code terminates with that answer); results do not depend on fuel (undo_element_mono);
-   C11_roundtrip_default_fuel covers undo_tree with the fuel the correspondence check executes. *)
+   out.  C11_roundtrip_any_fuel holds for EVERY fuel above the nesting depth of the document (i.e. the unbounded
+   recursion of the Python code terminates with that answer); results do not depend on fuel (undo_element_mono).
+   undo_tree, the function the correspondence check executes, runs with at least UNDO_DEPTH = 400 levels (the
+   model's counterpart of Python's recursion limit): C11_roundtrip is stated for it, with the explicit guard
+   xheight T < UNDO_DEPTH; C11_roundtrip_default_fuel: without the guard it still never returns a wrong document. *)
 From Coq Require Import List NArith Bool.
 Import ListNotations.
 Require Import XV.Placeholder XV.PlaceholderProofs XV.PlaceholderRound XV.PlaceholderUndo XV.PlaceholderFinal.
@@ -77,13 +79,21 @@ Print Assumptions C11_room_sufficient.
 
 (* Round trip: any document, any text / formatting tag subsets, any prior history. *)
 Theorem C11_roundtrip : forall tt fmt s T s' T1,
-  ph_wf tt fmt s -> no_pua T -> room tt fmt s T -> do_tree tt fmt s T = (s', T1) ->
-  forall fuel, (xsize T < fuel)%nat ->
-    exists T2, undo_tree_fuel fuel s' T1 = Ok T2 /\ tree_equiv T2 T.
-Proof. exact roundtrip_fuel. Qed.
+  ph_wf tt fmt s -> no_pua T -> room tt fmt s T -> (xheight T < UNDO_DEPTH)%nat ->
+  do_tree tt fmt s T = (s', T1) ->
+  exists T2, undo_tree s' T1 = Ok T2 /\ tree_equiv T2 T.
+Proof. exact roundtrip_thm. Qed.
 Print Assumptions C11_roundtrip.
 
-(* undo_tree as executed by the correspondence check (default fuel) never returns anything else *)
+(* the same for documents of any depth: every fuel above the nesting depth gives the answer *)
+Theorem C11_roundtrip_any_fuel : forall tt fmt s T s' T1,
+  ph_wf tt fmt s -> no_pua T -> room tt fmt s T -> do_tree tt fmt s T = (s', T1) ->
+  forall fuel, (xheight T < fuel)%nat ->
+    exists T2, undo_tree_fuel fuel s' T1 = Ok T2 /\ tree_equiv T2 T.
+Proof. exact roundtrip_fuel. Qed.
+Print Assumptions C11_roundtrip_any_fuel.
+
+(* whatever the depth, undo_tree never returns anything else (it can only run out of fuel) *)
 Theorem C11_roundtrip_default_fuel : forall tt fmt s T s' T1 T2,
   ph_wf tt fmt s -> no_pua T -> room tt fmt s T -> do_tree tt fmt s T = (s', T1) ->
   undo_tree s' T1 = Ok T2 -> tree_equiv T2 T.
@@ -98,3 +108,16 @@ Theorem C11_roundtrip_ph_inv_only_refuted :
     exists T2, undo_tree (fst (do_tree tt fmt s T)) (snd (do_tree tt fmt s T)) = Ok T2 /\ ~ tree_equiv T2 T.
 Proof. exact roundtrip_ph_inv_only_refuted. Qed.
 Print Assumptions C11_roundtrip_ph_inv_only_refuted.
+
+(* "For any document" is false of the code: a text character in the placeholder range is taken for a
+   placeholder by undo_tree even on a new maker that has replaced nothing.  <p>a&#xE001;b</p> comes back as
+   <p>a<diff:insert/>b</p>; <p>a&#xE002;b</p> raises IndexError (both replayed on the code on every run).
+   Hence the hypothesis no_pua in C11_roundtrip. *)
+Theorem C11_roundtrip_any_document_refuted :
+  (exists T2, room [[112]] [[98]] ph_init pua_T1 /\
+     undo_tree (fst (do_tree [[112]] [[98]] ph_init pua_T1)) (snd (do_tree [[112]] [[98]] ph_init pua_T1)) = Ok T2 /\
+     ~ tree_equiv T2 pua_T1) /\
+  (room [[112]] [[98]] ph_init pua_T2 /\
+     undo_tree (fst (do_tree [[112]] [[98]] ph_init pua_T2)) (snd (do_tree [[112]] [[98]] ph_init pua_T2)) = Err EIndex).
+Proof. exact roundtrip_any_document_refuted. Qed.
+Print Assumptions C11_roundtrip_any_document_refuted.
